@@ -63,7 +63,7 @@ class C14(Check):
             "SHA-1 of (tree, source)")
     assumptions = ["precedence table and associativity as documented in docs/grammar.md",
                    "one inherently ambiguous token shape excluded (counted as discarded)"]
-    floors = {"__nontrivial__": (6000, 200000), "prefix_of_postfix": (1000, 20000), "annotated_member": (500, 10000)}
+    floors = {"__nontrivial__": (6000, 60000), "prefix_of_postfix": (1000, 10000), "annotated_member": (500, 5000)}
 
     def run_case(self, case, sc, stats=None):
         if case.get("discard"):
@@ -127,7 +127,7 @@ def _worker(widx, wseed, tier, check):
             if why is not None:
                 raise Failure(why)
         ml = 25 if quick else 60
-        for what, n in (("expr", 1500 if quick else 60000), ("stmt", 900 if quick else 40000), ("prog", 900 if quick else 40000)):
+        for what, n in (("expr", 1500 if quick else 20000), ("stmt", 900 if quick else 12000), ("prog", 900 if quick else 12000)):
             f = hyp_search(tree_case(ml, what), prop, derive_seed(wseed, what), n, stats)
             if f:
                 failures.append(f)
